@@ -1,22 +1,38 @@
 #!/usr/bin/env python3
-"""Evaluate a seeded change: tools/seedcheck.py <Cxx> <dir with patch.diff and demo.py> [quick|thorough] [more property ids...]
-Applies the patch to /repo's working tree, runs the demonstration (must fail) and the checks, then restores /repo."""
+"""Evaluate a seeded change without touching /repo: tools/seedcheck.py <Cxx> <dir with patch.diff and demo.py> [quick|thorough] [more ids...]
+A scratch worktree of /repo's HEAD is created under /tmp, the patch applied there, the demonstration run in it
+(must fail; must pass on the unchanged worktree) and the checks run with VERIF_REPO pointing at it; the
+worktree is removed afterwards. With --in-repo the patch is applied to /repo's working tree instead (and
+reverted with git checkout), which is how the registered commands would meet it."""
 import os, subprocess, sys, time
-prop, d = sys.argv[1], sys.argv[2]
-tier = sys.argv[3] if len(sys.argv) > 3 else "quick"
-props = [prop] + sys.argv[4:]
+args = [a for a in sys.argv[1:] if a != "--in-repo"]
+in_repo = "--in-repo" in sys.argv
+prop, d = args[0], os.path.abspath(args[1])
+tier = args[2] if len(args) > 2 else "quick"
+props = [prop] + args[3:]
 V = "/verif"
-assert subprocess.run(["git", "-C", "/repo", "status", "--porcelain", "--untracked-files=no"], capture_output=True, text=True).stdout.strip() == "", "/repo not clean"
 demo = os.path.join(d, "demo.py")
-r0 = subprocess.run(["/venv/bin/python", demo], cwd="/repo", capture_output=True, text=True)
-print("demo on unchanged tree: exit", r0.returncode)
-subprocess.run(["git", "-C", "/repo", "apply", os.path.join(d, "patch.diff")], check=True)
+if in_repo:
+    wt = "/repo"
+    assert subprocess.run(["git", "-C", "/repo", "status", "--porcelain", "--untracked-files=no"], capture_output=True, text=True).stdout.strip() == "", "/repo not clean"
+else:
+    wt = "/tmp/seedeval_%d" % os.getpid()
+    subprocess.run(["git", "-C", "/repo", "worktree", "add", "-q", "--detach", wt, "HEAD"], check=True)
+    import shutil
+
+    shutil.copy("/repo/verde/_version_generated.py", os.path.join(wt, "verde", "_version_generated.py"))  # generated, git-ignored
 try:
-    r1 = subprocess.run(["/venv/bin/python", demo], cwd="/repo", capture_output=True, text=True)
-    print("demo with the change: exit", r1.returncode, (r1.stdout + r1.stderr).strip().splitlines()[-1:] )
+    r0 = subprocess.run(["/venv/bin/python", demo], cwd=wt, capture_output=True, text=True)
+    print("demo on unchanged tree: exit", r0.returncode)
+    subprocess.run(["git", "-C", wt, "apply", os.path.join(d, "patch.diff")], check=True)
+    r1 = subprocess.run(["/venv/bin/python", demo], cwd=wt, capture_output=True, text=True)
+    print("demo with the change: exit", r1.returncode, (r1.stdout + r1.stderr).strip().splitlines()[-1:])
+    env = dict(os.environ, VERIF_QUIET="1", VERIF_EVIDENCE_DIR=os.path.join(V, ".work", "evidence"))
+    if not in_repo:
+        env["VERIF_REPO"] = wt
     for p in props:
         t = time.time()
-        r = subprocess.run([os.path.join(V, "check"), tier, p], capture_output=True, text=True, env=dict(os.environ, VERIF_QUIET="1", VERIF_EVIDENCE_DIR=os.path.join("/verif", ".work", "evidence")))
+        r = subprocess.run([os.path.join(V, "check"), tier, p], capture_output=True, text=True, env=env)
         viol = [l for l in r.stdout.splitlines() if l.startswith("VIOLATION")]
         print("check %s %s: exit %d, %d VIOLATION lines, %.0fs" % (tier, p, r.returncode, len(viol), time.time() - t))
         for l in r.stdout.splitlines():
@@ -24,4 +40,7 @@ try:
                 print("   ", l[:260])
                 break
 finally:
-    subprocess.run(["git", "-C", "/repo", "checkout", "--", "."], check=True)
+    if in_repo:
+        subprocess.run(["git", "-C", "/repo", "checkout", "--", "."], check=True)
+    else:
+        subprocess.run(["git", "-C", "/repo", "worktree", "remove", "--force", wt])
